@@ -72,28 +72,33 @@ TEXT = {
 
 # additions of the third session (appended to the level text / the technique of the property)
 EXTRA = {
+ "C03": (' Third session (b): covariance of the whole pipeline function (`tensor`) end to end; the same on the driver carrier (24 integer rotation matrices, a genuine group: OpHom naturality).', ""),
+ "C04": (' Third session: restated for the driver carrier; bare position arrays as observers (C07 observers_as_positions).', ""),
+ "C08": (' Third session: each of the three regenerated flags shown necessary by its own witness; sufficiency for every re-normalisation of the tiled orientation path.', ""),
+ "C10": (' Third session: restated for the driver carrier.', ""),
+ "C11": (' Third session: the stored typed views are the ordered typed filters of children and pairwise disjoint.', ""),
  "C01": (" Third session: the port of magnet_cuboid_Bfield = the Coulombian six-face surface-charge integral (+ J inside) for every observer off the six face planes, all octants (iterated FTC); the regenerated concolic traces of the real Dipole / Sphere / Cuboid kernels are proved equal to the model at the real carrier; Circle off its axis: the kernel value = the Biot-Savart loop integral (times kappa = literal*4pi*1e-7, |kappa-1| < 1e-16) plus prefactor*(cel iteration value - cel integral), an exact identity with the truncation error of Bulirsch's iteration explicit (its convergence to the integral is the one named, unproved hypothesis CelComputesIntegral).",
          " + kernels regenerated by concolic tracing of the numpy source (Gen/KernTrace) with trace = model theorems + symbolic correspondence (formulas compared as rational functions over F_p)"),
  "C02": (" Third session: the whole ported CylinderSegment wrapper (cylseg_consistent); trace = model theorems for the Sphere and Dipole wrappers.",
          " + regenerated kernel traces and CylinderSegment translation (sync theorems) + symbolic correspondence"),
- "C05": (" Third session: Cylinder in full; CylinderSegment proportional to the magnetization amplitude (direction: not shown).",
+ "C05": (" Third session: Cylinder in full; CylinderSegment linear in the full magnetization vector (129 + 26 generated per-function theorems).",
          " + symbolic correspondence + CylinderSegment kern rows"),
  "C06": (" Third session: determine_cases always returns one of the 26 handled or the 4 unhandled ids, the dispatch falls through exactly on the latter.",
          " + iface stream + CylinderSegment kern rows"),
- "C07": (" Third session: the input-formatting glue and the method wrappers are modelled: src.getX / sens.getX / coll.getX (three branches) equal the top-level call with flags passed unchanged; bare position arrays = a Sensor at the origin; format_src_inputs flattens in order at any depth and keeps duplicates.",
-         " + exact iface correspondence (random worlds x entry points x argument nestings x malformed calls)"),
+ "C07": (" Third session: the input-formatting glue and the method wrappers are modelled: src.getX / sens.getX / coll.getX (three branches) equal the top-level call with flags passed unchanged; bare position arrays = a Sensor at the origin; format_src_inputs flattens in order at any depth and keeps duplicates; the functional interface is fully modelled and driver-run: row i = level1 of the i-th parameter set at the i-th pose.",
+         " + exact iface and dict correspondence (random worlds x entry points x argument nestings x malformed calls; all registered classes with a recording field function)"),
  "C09": (" Third session: rotate_from_angax = rotate of the rotation vectors (angle in radians) * axis/|axis|, bad axes refused, scalar/vector form preserved.",
          " + angax ops in the path stream"),
  "C12": (" Third session: Cylinder and the TriangularMesh inside test are ported and proved scale invariant; self-intersection check covariant when eps scales along (not invariant: witness).",
          " + regenerated kernel traces + symbolic correspondence"),
  "C13": (" Third session: full 360 degree CylinderSegment = Cylinder(r2) - Cylinder(r1) (structural), arctan_k_tan_2 periodic continuation.",
          " + symbolic correspondence + CylinderSegment kern rows"),
- "C14": (" Third session: div H = 0 for the straight segment at every placement off the carrier line.", ""),
- "C15": (" Third session: Cuboid: off the edges all six log products are positive after the reflection and no arctan2 gets (0,0) off the edge lines; Triangle sheet: every divisor / log argument defined off the closed edges and off the cap r = l (the cap is a recorded finding); Polyline masks cover the singular rows; Cylinder iteration and masks.",
+ "C14": (" Third session: div H = 0 for the straight segment at every placement off the carrier line; Cuboid closed form and wrapper row: div B = 0 and curl H = 0 off the face planes with the explicit Jacobian; INTEGRAL laws for axis-aligned boxes and rectangles (1-D FTC + Fubini): Dipole (box not containing it), Cuboid (boxes within one of the 27 cells incl. inside the magnet, wrapper rows clear of the shells, boxes straddling an uncharged face), Sphere (inside / outside); boxes cutting a charged face: conditional on continuity of B_n.", ""),
+ "C15": (" Third session: Cuboid: off the edges all six log products are positive after the reflection and no arctan2 gets (0,0) off the edge lines; Triangle sheet: every divisor / log argument defined off the closed edges and off the cap r = l (the cap is a recorded finding); Polyline masks cover the singular rows; Cylinder iteration and masks; after the repairs in /repo: Triangle defined off the closed edges without further hypothesis, CylinderSegment wrapper returns a row for every observer (no unhandled case id is dispatched).",
          " + regenerated kernel traces + symbolic correspondence"),
- "C16": (" Third session: segments_intersect_facets / get_intersecting_triangles ported with float32 rounding as a parameter: soundness, completeness for proper crossings, face-order and translation invariance, scale covariance; four recorded findings.",
+ "C16": (" Third session: segments_intersect_facets / get_intersecting_triangles ported with float32 rounding as a parameter: soundness, completeness for proper crossings, face-order and translation invariance, after the repair in /repo: reported <=> both end points farther than eps from the plane and the segment meets the closed facet; unit invariant with eps a fraction of the mesh size; r_factor = 2 suffices; one remaining finding.",
          " + exact selfint correspondence (float32 bit-exact)"),
- "C19": (" Third session: vertex coordinates of Prism, Pyramid, CylinderSegment, Ellipsoid and the Circle / Polyline traces (np.linspace modelled) lie on the respective surfaces and reach their extremes.",
+ "C19": (" Third session: vertex coordinates of Prism, Pyramid, CylinderSegment, Ellipsoid and the Circle / Polyline traces (np.linspace modelled) lie on the respective surfaces and reach their extremes; the placement function is driver-run and tied to place_and_orient_model3d.",
          " + trig generator rows in the disp stream (IEEE double, 1e-12)"),
  "C20": (" Third session: style_temp_edit restores the object's own style however the drawing ends (regenerated try/finally skeleton).",
          " + generated skeleton of style_temp_edit (Gen/StyleTemp)"),
